@@ -220,7 +220,9 @@ SelectUnique == /\ pc = "ugpage" /\ todo = {}
 
 \* instead of the unique-graph selection the caller supplies an arbitrary name -> trace-id filter (stream_data's
 \* documented parameter); only used in trace mode
-SupplyFilter(f) == /\ pc = "ug"
+\* (direct use of the holder: also right after the ingestion context - the filter_job_names parameter of stream_data is
+\* logged as the pair filter it amounts to)
+SupplyFilter(f) == /\ pc \in {"ug", "closed"}
                    /\ sel' = f /\ pc' = "stream"
                    /\ UNCHANGED <<nodes, assoc, hashes, pendN, pendR, minTs, maxTs, B, buf, run, flags, fed, first, pre, todo,
                                   out, ans, files, ingested, tid>>
